@@ -171,6 +171,8 @@ def items(tier: str, seed: int):
         if tier == "thorough":
             out.append({"kind": "switches", "linter": name})
     out.append({"kind": "precedence"})
+    for name in ("nesting", "srp", "magic-numbers"):
+        out.append({"kind": "mixed-languages", "linter": name})
     out.append({"kind": "cli-options"})
     out.append({"kind": "invalid"})
     return out
@@ -183,9 +185,57 @@ def run_item(item) -> Acc:
     return acc
 
 
+def _mixed_languages(item) -> Acc:
+    """Per-language override blocks in a run over files of several languages: what is reported for
+    a file must be what the same configuration reports for that file alone, in every order."""
+    import itertools  # noqa: PLC0415
+
+    acc = Acc()
+    name = item["linter"]
+    cmd, prefix, files, base, section = _linter_setup(name)
+    langs = [lg for lg in ("python", "typescript", "javascript", "rust") if any(p.startswith(lg[:2] + "/") for p in files)]
+    key, values = {
+        "nesting": ("max_nesting_depth", [1, 2, 3, 9]),
+        "srp": ("max_methods", [1, 2, 4, 30]),
+        "magic-numbers": ("allowed_numbers", [[], [0, 1], [0, 1, 2, 3, 4, 5, 10, 100, 1000], list(range(0, 20000))]),
+    }[name]
+    paths = sorted(files)
+    for rot in range(len(langs)):
+        assign = {lg: values[(i + rot) % len(values)] for i, lg in enumerate(langs)}
+        cfg = _section_cfg(base, section, {f"{lg}.{key}": v for lg, v in assign.items()})
+        fs, argv = _place(files, cfg, "yaml")
+        alone = {}
+        for pth in paths:
+            root = project(fs)
+            r = obs.cli_json([cmd, *argv, pth], root)
+            alone[pth] = None if r["violations"] is None else sorted(t for t in obs.norm([v for v in r["violations"] if v["rule_id"].startswith(prefix)], root, root) if t[1] == pth)
+            remove(root)
+            acc.case()
+        orders = list(itertools.permutations(paths)) if len(paths) <= 4 else [tuple(paths[i:] + paths[:i]) for i in range(len(paths))] + [tuple(reversed(paths))]
+        for order in [*orders, (".",)]:
+            root = project(fs)
+            r = obs.cli_json([cmd, *argv, *order], root)
+            got = None if r["violations"] is None else obs.norm([v for v in r["violations"] if v["rule_id"].startswith(prefix)], root, root)
+            remove(root)
+            acc.case()
+            acc.edge()
+            acc.valid()
+            if any(alone.values()):
+                acc.nt((name, rot, order))
+            for pth in paths:
+                mine = None if got is None else sorted(t for t in got if t[1] == pth)
+                if mine != alone[pth]:
+                    acc.fail({"site": "per-language-override", "linter": name, "mode": "file-judged-differently-in-a-mixed-language-run"},
+                             {"cmd": cmd, "files": files, "config": cfg, "carrier": "yaml", "order": list(order), "file": pth}, alone[pth] and alone[pth][:3], mine and mine[:3],
+                             f"{pth}: alone vs as part of `{cmd} {' '.join(order)}`")
+    return acc
+
+
 def _run_item(item) -> Acc:
     acc = Acc()
     k = item["kind"]
+    if k == "mixed-languages":
+        return _mixed_languages(item)
     if k in ("enabled", "thresholds", "ignore", "switches"):
         name = item["linter"]
         cmd, prefix, files, base, section = _linter_setup(name)
